@@ -1,0 +1,69 @@
+//go:build verif
+
+// Contracts for package layers, read by /verif/qv (comment-only file).
+
+package layers
+
+//@ define libT(x) := imp(x != nil, tinv(x) && preexisting(x))
+
+// user-supplied initializer: nothing is known about what it returns (NewFC validates the result)
+//@ abstract Initializer.Init(shape []int) (t tensor.Tensor, err error)
+//@   ensures imp(t != nil, tinv(t) && preexisting(t))
+
+// user-supplied seed function of the Input layer
+//@ abstract Input.SeedFunc() (t tensor.Tensor)
+
+//@ func NewInput
+//@   public
+//@   returns fresh
+//@   ensures c != nil
+
+//@ func Input.validateInputs
+//@   ensures[C09] iff(err == nil, len(xs) == 0)
+
+// C09: total for every argument, also when the optional SeedFunc was never set
+//@ func Input.Forward
+//@   public
+//@   ensures[C09] imp(len(xs) != 0 || c.SeedFunc == nil, err != nil && y == nil)
+
+/* ---------------- fc.go ---------------- */
+
+//@ define fcParams(c) := c.Weight != nil && c.Bias != nil && tinv(c.Weight) && tinv(c.Bias) && preexisting(c.Weight) && preexisting(c.Bias) && rank(c.Weight) == 1 && rank(c.Bias) == 1 && dim(c.Weight, 0) == dim(c.Bias, 0)
+
+//@ func validateInitializedWeights
+//@   requires conf != nil && libT(w) && libT(b)
+//@   ensures[C09,C16] iff(err == nil, w != nil && b != nil && rank(w) == 1 && rank(b) == 1 && dim(w, 0) == conf.Outputs && dim(b, 0) == conf.Outputs)
+
+// C09: totality of the configuration step (nil config, non-positive sizes, nil initializers are errors)
+//@ func toValidFCConfig
+//@   returns fresh
+//@   ensures[C09,C16] imp(iconf == nil || iconf.Inputs <= 0 || iconf.Outputs <= 0, err != nil)
+//@   ensures[C09,C16] imp(err == nil, conf != nil && conf.Inputs == iconf.Inputs && conf.Outputs == iconf.Outputs && conf.Inputs > 0 && conf.Outputs > 0)
+//@   ensures[C09,C16] imp(err == nil, mapHas(conf.Initializers, "Weight") && conf.Initializers["Weight"] != nil && mapHas(conf.Initializers, "Bias") && conf.Initializers["Bias"] != nil)
+
+//@ func NewFC
+//@   public
+//@   returns fresh
+//@   ensures[C09,C16] imp(conf == nil || conf.Inputs <= 0 || conf.Outputs <= 0, err != nil) && imp(err != nil, c == nil)
+//@   ensures[C16] imp(err == nil, c != nil && c.Weight != nil && c.Bias != nil && rank(c.Weight) == 1 && rank(c.Bias) == 1 && dim(c.Weight, 0) == conf.Outputs && dim(c.Bias, 0) == conf.Outputs)
+
+// C16: the pointers returned address the very fields read by the next Forward
+//@ func FC.Weights
+//@   public
+//@   ensures[C16] len(res0) == 2 && res0[0].Value == &c.Weight && res0[1].Value == &c.Bias && res0[0].Trainable && res0[1].Trainable
+
+//@ func FC.toValidInputs
+//@   requires forall(k, 0, len(xs), libT(xs[k]))
+//@   ensures[C09,C16] iff(err == nil, len(xs) == 1 && xs[0] != nil && rank(xs[0]) == 2) && imp(err == nil, x == xs[0])
+
+// C16 (shape and totality; the affine value formula is decided by the bounded stand-in): for W, B of shape [O] and an
+// input [B, D] the result is [B, O] and no intermediate operation can fail
+//@ func FC.forward
+//@   requires fcParams(c) && tinv(x) && preexisting(x) && rank(x) == 2
+//@   ensures[C16,C09] err == nil && y != nil && rank(y) == 2 && dim(y, 0) == dim(old(x), 0) && dim(y, 1) == dim(c.Weight, 0)
+
+//@ func FC.Forward
+//@   public
+//@   requires fcParams(c) && forall(k, 0, len(xs), libT(xs[k]))
+//@   ensures[C09,C16] iff(err == nil, len(xs) == 1 && xs[0] != nil && rank(xs[0]) == 2) && imp(err != nil, y == nil)
+//@   ensures[C16] imp(err == nil, y != nil && rank(y) == 2 && dim(y, 0) == dim(xs[0], 0) && dim(y, 1) == dim(c.Weight, 0))
